@@ -166,13 +166,31 @@ func c20Execute(rnd *rand.Rand) []cloneStep {
 	steps = append(steps, s0)
 	maxHandles := 3 + rnd.Intn(6)
 	nsteps := 10 + rnd.Intn(51)
+	chain := rnd.Intn(12) == 0 // a long chain of clones of clones (depth 34-40)
+	if chain {
+		maxHandles = 35 + rnd.Intn(7)
+		nsteps = maxHandles + 10 + rnd.Intn(10)
+	}
 	for i := 0; i < nsteps; i++ {
 		var s cloneStep
-		if len(handles) < maxHandles && rnd.Intn(4) == 0 {
+		if len(handles) < maxHandles && (rnd.Intn(4) == 0 || (chain && rnd.Intn(5) > 0)) {
 			p := rnd.Intn(len(handles))
+			if chain {
+				p = len(handles) - 1 // always clone the newest: the chain gets deeper
+			}
 			s = cloneStep{Op: "clone", Handle: len(handles), Parent: p, LenCap: [2]int{len(*handles[p]), cap(*handles[p])}}
 			var c *jen.Statement
-			if pn, what := mon.Guard(func() { c = handles[p].Clone() }); pn {
+			viaDo := rnd.Intn(3) == 0 // the clone is taken inside a Do callback
+			if viaDo {
+				s.Kind = "Do(Clone)"
+			}
+			if pn, what := mon.Guard(func() {
+				if viaDo {
+					handles[p].Do(func(st *jen.Statement) { c = st.Clone() })
+				} else {
+					c = handles[p].Clone()
+				}
+			}); pn {
 				s.Errs = append(s.Errs, "Clone panicked: "+what)
 				steps = append(steps, s)
 				return steps
@@ -304,7 +322,7 @@ func cloneDesc(steps []cloneStep) string {
 		case "new":
 			sb.WriteString("h0=Id ")
 		case "clone":
-			fmt.Fprintf(&sb, "h%d=h%d.Clone()[%d/%d] ", s.Handle, s.Parent, s.LenCap[0], s.LenCap[1])
+			fmt.Fprintf(&sb, "h%d=h%d.%sClone()[%d/%d] ", s.Handle, s.Parent, map[string]string{"": "", "Do(Clone)": "Do:"}[s.Kind], s.LenCap[0], s.LenCap[1])
 		default:
 			fmt.Fprintf(&sb, "h%d.%s ", s.Handle, s.Kind)
 		}
@@ -362,7 +380,7 @@ func c20Case(r *mon.Run, idx int64) {
 }
 
 func runC20(r *mon.Run) {
-	r.SetRule("random histories: 3-8 handles forming a tree by Clone(), 10-60 steps appending 2-8 tokens with unique names (Dot, Op+Id, Add(k), Call, Index, chains — always a valid expression continuation, so handles can be rendered with Render itself) to a random handle, so that clone points with and without spare slice capacity both occur; after every step every handle is rendered with Render and inside a NoFormat File, and tokenised; offline checker against a list model admitting live and snapshot views of the original. non-trivial = history with >=1 clone; distinct by operation sequence")
+	r.SetRule("random histories: 3-8 handles forming a tree by Clone() (one history in twelve: a chain of 35-41 clones of clones; a third of the clones are taken inside a Do callback), 10-60 steps appending 2-8 tokens with unique names (Dot, Op+Id, Add(k), Call, Index, chains — always a valid expression continuation, so handles can be rendered with Render itself) to a random handle, so that clone points with and without spare slice capacity both occur; after every step every handle is rendered with Render and inside a NoFormat File, and tokenised; offline checker against a list model admitting live and snapshot views of the original. non-trivial = history with >=1 clone; distinct by operation sequence")
 	r.Assume("a clone that has been appended to may show its original as it was at clone time or as it is now (both admitted: the statement promises isolation of originals and survival of clone tokens); an unmodified clone must render exactly like its original at every step, as the statement says")
 	c20NegControls(r)
 	n := r.Pick(2500, 30000)
